@@ -11,7 +11,7 @@
 uint32_t time_now(void) { return 0; }
 
 typedef struct { int id; int pad; } event_t;
-static event_t evstore[8];
+static event_t evstore[16];
 static fibre_eventq_t hq;
 static fibre_t yf;
 static struct { fibre_t f; uint32_t wake; } sf;
@@ -151,7 +151,7 @@ static void gen(long seed, int nexec, int irq)
 {
 	drv_srand(seed);
 	for (int x = 0; x < nexec; x++) {
-		eqdepth = 1 + drv_below(3); period = 1 + drv_below(3); sleeper = drv_below(4) != 0;
+		eqdepth = drv_below(5) ? 1 + drv_below(3) : 12; period = 1 + drv_below(3); sleeper = drv_below(4) != 0;
 		npass = 3 + drv_below(8);
 		long t = 0;
 		for (int k = 0; k < npass; k++) { t += drv_below(3); times[k] = t; }
